@@ -23,9 +23,10 @@
                  subnormals, overflow to inf)
 
     [LxUnsup] is answered only when a token outside this vocabulary (another name, another
-    operator, an f-string) occurs in a text that also has a "{" or a run of 300 digits:
-    there the full Python grammar would be needed to know whether a SyntaxError or the
-    TypeError / OverflowError comes first.  Everywhere else the answer is definite. *)
+    operator, an f-string) occurs in a text in which _convert could raise TypeError or
+    OverflowError ("{" followed by "[", "{" or "s"; a run of 300 digits and a "j"): there the
+    full Python grammar would be needed to know whether a SyntaxError comes first.  Everywhere
+    else the answer is definite. *)
 From Coq Require Import List ZArith NArith Bool String.
 Import ListNotations.
 From DD Require Import Base.Sx Base.PyStr Base.Value Path.PathModel.
@@ -347,7 +348,16 @@ Fixpoint long_digit_run (s : pystr) (run : nat) : bool :=
               else long_digit_run r O
   | [] => false
   end.
-Definition risky (s : pystr) : bool := has_char 123 s || long_digit_run s O.
+(* a "{" and, after it, a "[", a "{" or an "s" (of set()): an unhashable member of a set / key of a dict *)
+Fixpoint brace_then_unhashable (s : pystr) (seen : bool) : bool :=
+  match s with
+  | c :: r => if seen && ((c =? cLB) || (c =? 123) || (c =? 115)) then true
+              else brace_then_unhashable r (seen || (c =? 123))
+  | [] => false
+  end.
+(* a TypeError (hashing) or an OverflowError (<huge int> + <complex>) can come out of _convert *)
+Definition risky (s : pystr) : bool :=
+  brace_then_unhashable s false || (long_digit_run s O && (has_char 106 s || has_char 74 s)).
 
 Fixpoint universal_newlines (s : pystr) : pystr :=
   match s with
